@@ -227,6 +227,41 @@ pub fn pdfdoc_code(c: char) -> Option<u8> {
     }
 }
 
+/// ISO 32000-1 Table D.2 read the other way round (by CODE): the eight spacing accents at 0x18-0x1F ...
+pub const PDFDOC_18_1F: [u32; 8] = [0x02D8, 0x02C7, 0x02C6, 0x02D9, 0x02DD, 0x02DB, 0x02DA, 0x02DC];
+
+/// ... and the 31 typographic characters and letters at 0x80-0x9E (bullet, dagger, daggerdbl, ellipsis, emdash,
+/// endash, florin, fraction, guilsinglleft, guilsinglright, minus, perthousand, quotedblbase, quotedblleft,
+/// quotedblright, quoteleft, quoteright, quotesinglbase, trademark, fi, fl, Lslash, OE, Scaron, Ydieresis, Zcaron,
+/// dotlessi, lslash, oe, scaron, zcaron). 0x9F is undefined, 0xA0 is the Euro sign, 0xAD is undefined.
+pub const PDFDOC_80_9E: [u32; 31] = [
+    0x2022, 0x2020, 0x2021, 0x2026, 0x2014, 0x2013, 0x0192, 0x2044, 0x2039, 0x203A, 0x2212, 0x2030, 0x201E, 0x201C, 0x201D, 0x2018, 0x2019, 0x201A,
+    0x2122, 0xFB01, 0xFB02, 0x0141, 0x0152, 0x0160, 0x0178, 0x017D, 0x0131, 0x0142, 0x0153, 0x0161, 0x017E,
+];
+
+/// Every defined cell of PDFDocEncoding as (code, character), in code order: 0x09 0x0A 0x0D, 0x18-0x1F, 0x20-0x7E,
+/// 0x80-0x9E, 0xA0, 0xA1-0xFF without 0xAD - 232 cells. Built from the by-code tables above, not from
+/// `pdfdoc_code` (which is written by character); the self-test requires the two to agree in both directions.
+pub fn pdfdoc_cells() -> Vec<(u8, char)> {
+    let mut v: Vec<(u8, char)> = vec![(0x09, '\t'), (0x0A, '\n'), (0x0D, '\r')];
+    for (i, u) in PDFDOC_18_1F.iter().enumerate() {
+        v.push((0x18 + i as u8, char::from_u32(*u).unwrap()));
+    }
+    for b in 0x20u8..=0x7E {
+        v.push((b, b as char));
+    }
+    for (i, u) in PDFDOC_80_9E.iter().enumerate() {
+        v.push((0x80 + i as u8, char::from_u32(*u).unwrap()));
+    }
+    v.push((0xA0, '\u{20AC}'));
+    for b in 0xA1u8..=0xFF {
+        if b != 0xAD {
+            v.push((b, char::from_u32(b as u32).unwrap()));
+        }
+    }
+    v
+}
+
 /// Password bytes for revisions 2-4: the PDFDocEncoding form; None if a character has no code.
 pub fn pdfdoc_bytes(pw: &str) -> Option<Vec<u8>> {
     pw.chars().map(pdfdoc_code).collect()
@@ -1138,6 +1173,35 @@ pub fn selftest() -> Result<u64, String> {
     if pdfdoc_bytes("\u{43f}").is_some() || pdfdoc_bytes("\u{ad}").is_some() {
         return Err("self-test pdfdoc (unencodable)".into());
     }
+    // the PDFDocEncoding table, by code and by character: 232 defined cells, among them 0x18-0x1F and 0x80-0x9E;
+    // every cell's character encodes to its code, no character has two codes, and no other character of the Basic
+    // Multilingual Plane has a code (in particular U+0000-U+0008, U+007F, U+009F, U+00A0, U+00AD)
+    {
+        let cells = pdfdoc_cells();
+        let codes: std::collections::BTreeSet<u8> = cells.iter().map(|c| c.0).collect();
+        let chars: std::collections::BTreeSet<char> = cells.iter().map(|c| c.1).collect();
+        if cells.len() != 232 || codes.len() != 232 || chars.len() != 232 {
+            return Err(format!("self-test pdfdoc table: {} cells, {} codes, {} characters", cells.len(), codes.len(), chars.len()));
+        }
+        if !(0x18u8..=0x1F).chain(0x80..=0x9E).chain(0xA0..=0xAC).chain(0xAE..=0xFF).chain(0x20..=0x7E).all(|b| codes.contains(&b))
+            || [0x00u8, 0x08, 0x0B, 0x0C, 0x0E, 0x17, 0x7F, 0x9F, 0xAD].iter().any(|b| codes.contains(b))
+        {
+            return Err("self-test pdfdoc table: set of defined codes".into());
+        }
+        for (code, ch) in &cells {
+            if pdfdoc_code(*ch) != Some(*code) {
+                return Err(format!("self-test pdfdoc table: U+{:04X} encodes to {:?}, Table D.2 has it at 0x{:02X}", *ch as u32, pdfdoc_code(*ch), code));
+            }
+        }
+        for u in 0u32..=0xFFFF {
+            if let Some(ch) = char::from_u32(u) {
+                if !chars.contains(&ch) && pdfdoc_code(ch).is_some() {
+                    return Err(format!("self-test pdfdoc table: U+{:04X} has a code but no cell", u));
+                }
+            }
+        }
+        n += 1;
+    }
     if utf8_prep("\u{fb01}x\u{ad}pw\u{a0}1").ok() != Some(b"fixpw 1".to_vec()) {
         return Err("self-test saslprep".into());
     }
@@ -1618,6 +1682,12 @@ pub mod menu {
         /// dictionaries that are signature dictionaries under some readings only (no /Type, no /ByteRange,
         /// literal-format Contents): only lopdf against itself, both treatments of Contents accepted
         SigAmbiguous,
+        /// strings of 2^7-1 .. 2^12+1 bytes (each power of two and its two neighbours) x {literal, hexadecimal} format x
+        /// {printable, mixed, all-binary, escape-heavy} content, in ordinary dictionaries and arrays AND as the Contents
+        /// of signature dictionaries (top-level, nested in a field, in an array); signature Contents of 0..33 bytes
+        BigStrings,
+        /// the same axes at 2^16-1, 2^16, 2^16+1 bytes (twelve strings)
+        HugeStrings,
     }
 
     impl DocKind {
@@ -1640,6 +1710,8 @@ pub mod menu {
                 DocKind::KeyNames => "strings_under_special_looking_keys",
                 DocKind::SigDict => "signature_dictionaries",
                 DocKind::SigAmbiguous => "signature_like_dictionaries",
+                DocKind::BigStrings => "strings_of_128_to_4097_bytes_by_format_and_content",
+                DocKind::HugeStrings => "strings_of_65535_to_65537_bytes_by_format_and_content",
             }
         }
         pub fn from_name(s: &str) -> DocKind {
@@ -1660,6 +1732,8 @@ pub mod menu {
                 "strings_under_special_looking_keys" => DocKind::KeyNames,
                 "signature_dictionaries" => DocKind::SigDict,
                 "signature_like_dictionaries" => DocKind::SigAmbiguous,
+                "strings_of_128_to_4097_bytes_by_format_and_content" => DocKind::BigStrings,
+                "strings_of_65535_to_65537_bytes_by_format_and_content" => DocKind::HugeStrings,
                 _ => DocKind::Page,
             }
         }
@@ -2073,6 +2147,209 @@ pub mod menu {
         d
     }
 
+    /// What the bytes of a long string look like.
+    #[derive(Clone, Copy, PartialEq, Eq, Debug)]
+    pub enum Fill {
+        /// text in printable ASCII (with balanced parentheses)
+        Printable,
+        /// runs of 16 bytes of text alternating with runs of 16 arbitrary bytes (all 256 values occur)
+        Mixed,
+        /// no printable byte at all: bytes >= 0x80 and control characters (NUL, TAB, LF, CR, ...)
+        Binary,
+        /// nothing but the bytes a literal string has to escape or balance: backslashes, parentheses (unbalanced both
+        /// ways), CR, LF, CR LF; the string begins with `)` and ends with a backslash
+        Tricky,
+    }
+
+    impl Fill {
+        pub fn name(self) -> &'static str {
+            match self {
+                Fill::Printable => "printable",
+                Fill::Mixed => "mixed",
+                Fill::Binary => "binary",
+                Fill::Tricky => "escapes",
+            }
+        }
+    }
+
+    /// 2^e - 1, 2^e, 2^e + 1 for e = 7..12
+    pub const BIG_LENS: [usize; 18] = [127, 128, 129, 255, 256, 257, 511, 512, 513, 1023, 1024, 1025, 2047, 2048, 2049, 4095, 4096, 4097];
+    pub const HUGE_LENS: [usize; 3] = [65535, 65536, 65537];
+
+    pub fn fill(len: usize, class: Fill, salt: u32) -> Vec<u8> {
+        const TEXT: &[u8] = b"The quick brown fox (jumps) over the lazy dog; 0123456789 times. ";
+        const ESC: &[u8] = b"\\()\r\n)\r\n\\\\((\n\r)(";
+        let s = salt as usize;
+        let mut v: Vec<u8> = (0..len)
+            .map(|i| match class {
+                Fill::Printable => TEXT[(i + s) % TEXT.len()],
+                Fill::Mixed => {
+                    if (i / 16) % 2 == 0 {
+                        TEXT[(i + s) % TEXT.len()]
+                    } else {
+                        ((i * 7 + s * 13 + 1) & 0xff) as u8
+                    }
+                }
+                Fill::Binary => {
+                    if i % 5 == 4 {
+                        ((i * 3 + s) & 0x1f) as u8
+                    } else {
+                        0x80 | ((i * 7 + s) & 0x7f) as u8
+                    }
+                }
+                Fill::Tricky => ESC[(i + s) % ESC.len()],
+            })
+            .collect();
+        if class == Fill::Tricky && len > 0 {
+            v[0] = b')';
+            v[len - 1] = b'\\';
+        }
+        v
+    }
+
+    fn fs(len: usize, class: Fill, salt: u32, hex: bool) -> Object {
+        Object::String(fill(len, class, salt), if hex { StringFormat::Hexadecimal } else { StringFormat::Literal })
+    }
+
+    /// A signature dictionary in the narrow sense (/Type /Sig or /DocTimeStamp, /ByteRange) around a Contents value.
+    fn sig_around(contents: Object, timestamp: bool, salt: u32) -> Dictionary {
+        let n = match &contents {
+            Object::String(b, _) => b.len() as i64,
+            _ => 0,
+        };
+        dict(vec![
+            ("Type", Object::Name(if timestamp { b"DocTimeStamp".to_vec() } else { b"Sig".to_vec() })),
+            ("Filter", Object::Name(b"Adobe.PPKLite".to_vec())),
+            ("SubFilter", Object::Name(if timestamp { b"ETSI.RFC3161".to_vec() } else { b"adbe.pkcs7.detached".to_vec() })),
+            ("ByteRange", Object::Array(vec![0.into(), 840.into(), (842 + 2 * n).into(), 240.into()])),
+            ("Contents", contents),
+            ("Reason", s(20, salt, false)),
+        ])
+    }
+
+    /// The two documents of the string size / format / content axes. Every string is either an entry of an ordinary
+    /// dictionary (or an element of an array) or the Contents value of a signature dictionary.
+    fn build_sized(kind: DocKind, objs: &mut Vec<(ObjectId, Object)>) {
+        objs.push(((1, 0), Object::Dictionary(dict(vec![("Type", Object::Name(b"Catalog".to_vec()))]))));
+        let mut next = 2u32;
+        let mut push = |objs: &mut Vec<(ObjectId, Object)>, o: Object| {
+            objs.push(((next, 0), o));
+            next += 1;
+        };
+        if kind == DocKind::HugeStrings {
+            let mut i = 0usize;
+            for class in [Fill::Printable, Fill::Mixed, Fill::Binary] {
+                for hexf in [false, true] {
+                    for as_sig in [false, true] {
+                        let len = HUGE_LENS[i % 3];
+                        let st = fs(len, class, 3000 + i as u32, hexf);
+                        if as_sig {
+                            push(objs, Object::Dictionary(sig_around(st, i % 4 == 3, 3100 + i as u32)));
+                        } else {
+                            push(objs, Object::Dictionary(dict(vec![("Type", Object::Name(b"Annot".to_vec())), ("Subtype", Object::Name(b"FreeText".to_vec())), ("Contents", st)])));
+                        }
+                        i += 1;
+                    }
+                }
+            }
+            // stream bodies of the same lengths (a whole number of AES blocks, one byte less, one byte more)
+            for (j, len) in HUGE_LENS.iter().enumerate() {
+                push(objs, Object::Stream(Stream::new(dict(vec![("K", Object::Integer(j as i64)), ("Note", fs(40, Fill::Mixed, 3200 + j as u32, j % 2 == 0))]), fill(*len, Fill::Binary, 3300 + j as u32))));
+            }
+            return;
+        }
+        for (ci, class) in [Fill::Printable, Fill::Mixed, Fill::Binary, Fill::Tricky].into_iter().enumerate() {
+            // (a literal string of n escapes costs the writer n^2 steps: the escape-heavy class stops at 1025 bytes)
+            let lens: Vec<usize> = BIG_LENS.iter().copied().filter(|l| class != Fill::Tricky || *l <= 1025).collect();
+            for hexf in [false, true] {
+                let salt = 2200 + 100 * ci as u32 + if hexf { 50 } else { 0 };
+                // ordinary placements: one dictionary with a string of every length (one of them under the key Contents - the
+                // dictionary has neither /Type /Sig nor /ByteRange), and an array with the strings around 2^10
+                let mut d = dict(vec![("Type", Object::Name(b"Annot".to_vec())), ("Subtype", Object::Name(b"FreeText".to_vec()))]);
+                for (li, len) in lens.iter().enumerate() {
+                    d.set(format!("L{}", len), fs(*len, class, salt + li as u32, hexf));
+                }
+                d.set("Contents", fs(1500, class, salt + 30, hexf));
+                push(objs, Object::Dictionary(d));
+                push(objs, Object::Array(lens.iter().filter(|l| (1023..=1025).contains(*l)).map(|l| fs(*l, class, salt + 40, hexf)).collect()));
+                // signature placements: one signature dictionary per length - an indirect object, the direct value of a
+                // signature field, or an element of an array
+                for (li, len) in lens.iter().enumerate() {
+                    let sig = Object::Dictionary(sig_around(fs(*len, class, salt + 60 + li as u32, hexf), li % 3 == 2, salt + 80 + li as u32));
+                    match li % 6 {
+                        4 => push(objs, Object::Dictionary(dict(vec![("FT", Object::Name(b"Sig".to_vec())), ("T", s(18, salt + 90, false)), ("V", sig)]))),
+                        5 => push(objs, Object::Array(vec![Object::Integer(*len as i64), sig])),
+                        _ => push(objs, sig),
+                    }
+                }
+            }
+        }
+        // stream bodies around 2^10 and 2^12 bytes
+        for (j, len) in BIG_LENS.iter().filter(|l| (1023..=1025).contains(*l) || (4095..=4097).contains(*l)).enumerate() {
+            push(objs, Object::Stream(Stream::new(dict(vec![("K", Object::Integer(j as i64))]), fill(*len, if j % 2 == 0 { Fill::Binary } else { Fill::Mixed }, 2990 + j as u32))));
+        }
+        // short signature values, both formats, arbitrary and printable bytes (AES block edges; the empty string)
+        for (i, len) in LENS.iter().enumerate() {
+            for hexf in [false, true] {
+                for class in [Fill::Mixed, Fill::Printable] {
+                    let st = if class == Fill::Mixed { s(*len, 2900 + i as u32, hexf) } else { fs(*len, class, 2950 + i as u32, hexf) };
+                    push(objs, Object::Dictionary(sig_around(st, i % 2 == 1, 2960 + i as u32)));
+                }
+            }
+        }
+    }
+
+    /// Passwords for revisions 2-4 that exercise one cell of PDFDocEncoding each: the character alone, at the start,
+    /// in the middle and at the end of an ASCII password. `position` 0..4 gives the user password form; the owner
+    /// password carries the same character in the form two further on, in another ASCII word.
+    pub fn pdfdoc_cell_pair(code: u8, ch: char, position: usize) -> (String, String, String) {
+        const FORMS: [&str; 4] = ["alone", "at_start", "in_middle", "at_end"];
+        let place = |form: usize, word: &str| -> String {
+            let mid = word.len() / 2;
+            match form % 4 {
+                0 => ch.to_string(),
+                1 => format!("{}{}", ch, word),
+                2 => format!("{}{}{}", &word[..mid], ch, &word[mid..]),
+                _ => format!("{}{}", word, ch),
+            }
+        };
+        (
+            format!("pdfdoc_cell_{:02x}_user_{}_owner_{}", code, FORMS[position % 4], FORMS[(position + 2) % 4]),
+            place(position, "user"),
+            place(position + 2, "Owner1"),
+        )
+    }
+
+    /// Password pairs for revisions 2-4 made of several characters PDFDocEncoding places outside ASCII and Latin-1:
+    /// inside ASCII words, passwords consisting ONLY of such characters (an encoder that drops them leaves the empty
+    /// password), only one of the two passwords affected, control characters, and such a character on either side of
+    /// the 32-byte cut of Algorithm 2 step (a).
+    pub fn pdfdoc_special_pairs() -> Vec<(&'static str, String, String)> {
+        let accents: String = super::PDFDOC_18_1F.iter().map(|u| char::from_u32(*u).unwrap()).collect();
+        let high: String = super::PDFDOC_80_9E.iter().map(|u| char::from_u32(*u).unwrap()).collect();
+        let rev = |x: &str| x.chars().rev().collect::<String>();
+        let rep = |c: char, n: usize| std::iter::repeat(c).take(n).collect::<String>();
+        let latin = |from: u32, n: usize| (from..).filter(|u| *u != 0xAD).take(n).map(|u| char::from_u32(u).unwrap()).collect::<String>();
+        let v: Vec<(&'static str, String, String)> = vec![
+            ("pdfdoc_accents_inside", "se\u{2c6}cret".into(), "ow\u{2dc}ner\u{2c7}".into()),
+            ("pdfdoc_only_accents", accents.clone(), rev(&accents)),
+            ("pdfdoc_high_block_inside", "\u{2022}pw\u{20ac}\u{160}".into(), "\u{201c}own\u{201d}\u{2122}".into()),
+            ("pdfdoc_controls", "a\tb\nc\rd".into(), "\t\n\r".into()),
+            ("pdfdoc_ascii_user_accent_owner", "user".into(), "\u{2d8}\u{2c7}".into()),
+            ("pdfdoc_accent_user_ascii_owner", "\u{2da}\u{2dc}".into(), "owner".into()),
+            // the 32nd byte is the accent / the accent is the first byte and 32 more follow
+            ("pdfdoc_accent_at_byte_32", format!("{}\u{2c6}", rep('a', 31)), format!("\u{2c7}{}", rep('B', 32))),
+            // the accent is the 33rd byte (cut off) / the 17th of 33
+            ("pdfdoc_accent_at_byte_33", format!("{}\u{2d9}", rep('c', 32)), format!("{}\u{2db}{}", rep('D', 16), rep('D', 16))),
+            ("pdfdoc_all_of_80_9e", high.clone(), format!("{}\u{20ac}", rev(&high))),
+            ("pdfdoc_latin1_blocks", latin(0xA1, 32), latin(0xE0, 32)),
+        ];
+        for (name, u, o) in &v {
+            assert!(super::pdfdoc_encodable(u) && super::pdfdoc_encodable(o) && u != o, "pair {} is not in the domain", name);
+        }
+        v
+    }
+
     /// Document menu (DESIGN C05): every path of encrypt_object / decrypt_object.
     /// `cfg` only matters for `Crypt` (the override names must exist in the configuration).
     pub fn build_doc(kind: DocKind, cfg: &Config, id0: &[u8], big_ids: bool) -> Document {
@@ -2366,6 +2643,7 @@ pub mod menu {
                     objs.push(((6, 0), Object::Array(vec![sig(None, true, s(33, 2150, false), 2151)])));
                 }
             }
+            DocKind::BigStrings | DocKind::HugeStrings => build_sized(kind, &mut objs),
             DocKind::MetaDict => {
                 let meta = |salt: u32| {
                     Object::Dictionary(dict(vec![
